@@ -2,24 +2,25 @@
   C08 — threaded compression is correct, ordered and live under every schedule.
   Theorems about the labelled transition system `XzVerif.MtEnc` (Model/MtEnc.lean): all of them quantify over every state
   reachable by ANY interleaving of main-thread and worker steps (= every schedule, every spurious wake-up, every time-out).
-  Helper lemmas are in Lemmas/MtEncA..G.lean.
+  Helper lemmas are in Lemmas/MtEncA..H.lean.
 -/
-import XzVerif.Lemmas.MtEncG
+import XzVerif.Lemmas.MtEncH
 
 namespace XzVerif.C08
 open XzVerif.MtEnc
 
 /-- The invariant: entry-local facts (A), queue structure (B), ghost data / output bytes (C), worker states vs. main (W),
-    main-thread program-counter facts (M). -/
+    main-thread program-counter facts (M), exact accounting of the progress counters on healthy streams (P). -/
 structure Inv (P : Params) (s : St) : Prop where
   a : InvA P s
   b : InvB s
   c : InvC P s
   w : InvW s
   m : InvM s
+  p : InvP P s
 
 theorem inv_init (P : Params) (c : Cfg) (h1 : 0 < c.bs) (h2 : 0 < c.tmax) : Inv P (initSt c P) := by
-  refine ⟨?_, InvB_init h1 h2 .out (Or.inl rfl), InvC_init P c .out, ?_, ?_⟩
+  refine ⟨?_, InvB_init h1 h2 .out (Or.inl rfl), InvC_init P c .out, ?_, ?_, InvP_init P c .out⟩
   · intro e he; simp [initSt] at he
   · exact ⟨by intro e he; simp [initSt] at he, by simp [initSt, busy], by simp [initSt]⟩
   · refine ⟨(by intro a; cases a), (by intro a; cases a), (by intro a; rcases a with a | a <;> cases a), (by intro a; cases a),
@@ -27,7 +28,8 @@ theorem inv_init (P : Params) (c : Cfg) (h1 : 0 < c.bs) (h2 : 0 < c.tmax) : Inv 
     intro _ a ha; simp [initSt] at ha
 
 theorem inv_step {P : Params} {s s' : St} {e : Ev} (h : Inv P s) (hs : step P s e = some s') : Inv P s' :=
-  ⟨InvA_step h.a h.b hs, InvB_step h.b h.a hs, InvC_step h.c h.a h.b hs, InvW_step h.w h.a hs, InvM_step h.m h.b h.w hs⟩
+  ⟨InvA_step h.a h.b hs, InvB_step h.b h.a hs, InvC_step h.c h.a h.b hs, InvW_step h.w h.a hs, InvM_step h.m h.b h.w hs,
+   InvP_step h.p h.a h.b h.w hs⟩
 
 /-- **mtenc_inv**: the invariant holds initially and is preserved by every transition, hence in every reachable state. -/
 theorem mtenc_inv {P : Params} {c : Cfg} (h1 : 0 < c.bs) (h2 : 0 < c.tmax) {s : St} (hr : Reachable P c s) : Inv P s := by
@@ -95,6 +97,43 @@ theorem mtenc_full_barrier {P : Params} {c : Cfg} (h1 : 0 < c.bs) (h2 : 0 < c.tm
   have hf := (h.m.retEnd hout _ hret).2.2.1 rfl
   exact ⟨hf.1, hf.2.2, fun e he => closed_of_shape (h.b.allClosed hf.1) he, h.c.cons⟩
 
+/-- **mtenc_progress**: on a healthy stream (no worker error, no error return, not being torn down) what lzma_get_progress
+    reports never exceeds the true totals: progress_in ≤ number of input bytes consumed; progress_out ≤ header + sizes of the
+    finished Blocks (+ Index/Footer once they are being written) + one output-buffer allocation per Block still being encoded;
+    and the finished part is exact: `coder->progress_in/out` equal the sums over the finished Blocks. When LZMA_FINISH has
+    returned LZMA_STREAM_END the reported values EQUAL the totals (input consumed, bytes written). -/
+theorem mtenc_progress {P : Params} {c : Cfg} (h1 : 0 < c.bs) (h2 : 0 < c.tmax) {s : St} (hr : Reachable P c s) (hh : Healthy s) :
+    (progress s).1 ≤ s.consumed.length ∧
+    (progress s).2 ≤ P.hdr.length + doneOut P s.done + finOut P s.outq + tailLen P s + busy s.outq * P.alloc ∧
+    s.progIn = doneIn s.done + finIn s.outq ∧
+    (s.seq = .ended → progress s = (s.consumed.length, s.out.length)) := by
+  have h := mtenc_inv h1 h2 hr
+  have hin := sum_in_le h.a
+  have hout := sum_out_le h.a
+  have hp := h.p.pin hh
+  have hq := h.p.pout hh
+  have hlen : s.consumed.length = doneIn s.done + doneIn (blks s.outq) := by
+    rw [h.c.cons, List.length_append, datas_length, datas_length]
+  refine ⟨?_, ?_, hp, ?_⟩
+  · rw [progress_eq]; simp only; omega
+  · rw [progress_eq]; simp only; omega
+  · intro he
+    have hnil := (h.b.seqTail (Or.inr he)).1
+    have ho := h.c.outE he
+    have henc : (encs P s.done).length = doneOut P s.done := by
+      simp [encs, doneOut, List.length_flatten, List.map_map, Function.comp_def]
+    have htl : tailLen P s = (P.tailBytes s.index).length := by simp [tailLen, he]
+    have e1 : finIn s.outq = 0 := by rw [hnil]; rfl
+    have e2 : finOut P s.outq = 0 := by rw [hnil]; rfl
+    have e3 : doneIn (blks s.outq) = 0 := by rw [hnil]; rfl
+    have e4 : (s.outq.map wIn).sum = 0 := by rw [hnil]; rfl
+    have e5 : (s.outq.map wOut).sum = 0 := by rw [hnil]; rfl
+    have hol : s.out.length = P.hdr.length + doneOut P s.done + (P.tailBytes s.index).length := by
+      rw [ho, List.length_append, List.length_append, henc]
+    rw [progress_eq, e4, e5]
+    simp only [Nat.add_zero]
+    congr 1 <;> omega
+
 /-- **mtenc_no_deadlock**: in every reachable state in which the handle has not been freed some thread can take a step that is
     not a time-out, not a spurious wake-up and not a mere re-check of a wait condition that is still false. -/
 theorem mtenc_no_deadlock {P : Params} {c : Cfg} (h1 : 0 < c.bs) (h2 : 0 < c.tmax) {s : St} (hr : Reachable P c s)
@@ -135,5 +174,94 @@ theorem mtenc_reinit_safe {P : Params} {c : Cfg} (h1 : 0 < c.bs) (h2 : 0 < c.tma
   have h := mtenc_inv h1 h2 hr
   refine ⟨inv_step h hs, ?_⟩
   rcases (mtenc_end_safe h1 h2 hr hs).2.2 with ⟨_, rfl⟩ | ⟨c', _, rfl⟩ <;> simp [progress, initSt]
+
+
+-- ---------------------------------------------------------------------------------------------------------------------
+-- non-vacuity: a concrete schedule reaches FULL_FLUSH -> STREAM_END, FINISH -> STREAM_END and a completed re-init
+-- ---------------------------------------------------------------------------------------------------------------------
+
+theorem reachable_run {P : Params} {c : Cfg} {s s' : St} (evs : List Ev) (hr : Reachable P c s) (h : run P s evs = some s') :
+    Reachable P c s' := by
+  induction evs generalizing s with
+  | nil => simp [run] at h; exact h ▸ hr
+  | cons e es ih =>
+    simp only [run] at h
+    cases hs : step P s e with
+    | none => simp [hs] at h
+    | some s1 => simp [hs] at h; exact ih (Reachable.step e hr hs) h
+
+def exP : Params where
+  hdr := [1, 2]
+  enc := fun o c d => [UInt8.ofNat (100 + o)] ++ d ++ [UInt8.ofNat c]
+  unpadded := fun _ _ d => d.length + 2
+  tailBytes := fun idx => [9, UInt8.ofNat idx.length]
+  alloc := 10
+
+def exCfg : Cfg := { bs := 2, tmax := 2 }
+
+/-- 3 bytes with FULL_FLUSH (two Blocks: block_size 2, then the flush cut), filter update, 1 byte with FINISH. -/
+def exTrace1 : List Ev :=
+  [.call [10, 11, 12] 100 .fullFlush, .mHdr, .mRead, .mEncIn, .wTop 0 0, .wEnc 0 false 0, .mEncIn, .wEnc 0 false 0, .wMarkIdle 0,
+   .wTail 0, .mEncIn, .wTop 1 0, .wEnc 1 false 0, .mEncIn, .wEnc 1 false 0, .wMarkIdle 1, .wTail 1, .mEncIn, .mAfterIn, .mWake,
+   .mRead, .mRead, .mRead, .mEncIn, .mAfterIn]
+
+def exTrace2 : List Ev :=
+  [.update 7, .call [13] 100 .finish, .mRead, .mEncIn, .wTop 0 0, .wEnc 0 false 0, .mEncIn, .wEnc 0 false 0, .wMarkIdle 0, .wTail 0,
+   .mEncIn, .mAfterIn, .mWake, .mRead, .mRead, .mEncIn, .mAfterIn, .mTail]
+
+def exTrace3 : List Ev := [.reinit { bs := 3, tmax := 1 }, .mExitIdle, .wExitIdle, .mJoin]
+
+structure Obs where
+  mpc : MPc
+  seq : Seq
+  lastRet : Option (Action × Ret)
+  out : Bytes
+  qlen : Nat
+  flushPts : List Nat
+  prog : Nat × Nat
+  consumed : Bytes
+  deriving DecidableEq
+
+def obs (s : St) : Obs := ⟨s.mpc, s.seq, s.lastRet, s.out, s.outq.length, s.flushPts, progress s, s.consumed⟩
+
+/-- after the FULL_FLUSH: STREAM_END, both Blocks delivered, queue empty -/
+example : (run exP (initSt exCfg exP) exTrace1).map obs =
+    some ⟨.out, .block, some (.fullFlush, END), [1, 2, 100, 10, 11, 0, 101, 12, 0], 0, [3, 3], (3, 9), [10, 11, 12]⟩ := by decide +kernel
+
+/-- after FINISH: one Stream; the third Block uses the updated filter chain; progress = totals -/
+example : (run exP (initSt exCfg exP) (exTrace1 ++ exTrace2)).map obs =
+    some ⟨.out, .ended, some (.finish, END), [1, 2, 100, 10, 11, 0, 101, 12, 0, 102, 13, 7, 9, 3], 0, [3, 3, 4, 4], (4, 14), [10, 11, 12, 13]⟩ := by
+  decide +kernel
+
+/-- re-init on the used handle: the worker is told to exit, exits, is joined; the new Stream starts pristine -/
+example : (run exP (initSt exCfg exP) (exTrace1 ++ exTrace2 ++ exTrace3)).map (fun s => (s.mpc, s.cfg.bs, s.ninit, s.progIn, s.progOut)) =
+    some (.out, 3, 0, 0, 2) := by decide +kernel
+
+/-- the hypotheses of mtenc_output / mtenc_progress are satisfiable: a reachable, healthy state with sequence = ended exists -/
+example : ∃ s, Reachable exP exCfg s ∧ s.seq = .ended ∧ Healthy s := by
+  have h : ∃ s, run exP (initSt exCfg exP) (exTrace1 ++ exTrace2) = some s ∧ s.seq = .ended ∧ s.err = none ∧ s.mpc = .out := by
+    decide +kernel
+  obtain ⟨s, h1, h2, h3, h4⟩ := h
+  exact ⟨s, reachable_run _ Reachable.init h1, h2, h3, by unfold Dn; rw [h4]; simp⟩
+
+/-- a waiting main thread and a sleeping worker really occur (the wake-up theorems are not vacuous) -/
+example : (run exP (initSt exCfg exP)
+    [.call [10] 100 .run, .mHdr, .mRead, .mEncIn, .mEncIn, .mEncIn, .mAfterIn, .call [] 100 .finish, .mRead, .wTop 0 0, .wEnc 0 false 0,
+     .mEncIn, .mEncIn, .mAfterIn, .mWake]).map
+    (fun s => (s.mpc, s.mWoken, waitCond s)) = some (.waiting, false, false) := by decide +kernel
+
+
+def exTrace4 : List Ev :=
+  [.call [10] 100 .run, .mHdr, .mRead, .mEncIn, .mEncIn, .mEncIn, .mAfterIn, .wTop 0 0, .wEnc 0 false 0, .wEnc 0 false 0]
+
+/-- a worker asleep in worker_encode() waiting for more input (no signal yet, nothing to do yet) … -/
+example : (run exP (initSt exCfg exP) exTrace4).map
+    (fun s => s.outq.map fun e => e.wk.map fun w => (w.pc, w.asleep, w.woken, needsRun e w)) = some [some (.enc, true, false, false)] := by
+  decide +kernel
+
+/-- … is signalled by the main thread when it hands over THR_FINISH. -/
+example : (run exP (initSt exCfg exP) (exTrace4 ++ [.call [] 100 .finish, .mRead, .mEncIn])).map
+    (fun s => s.outq.map fun e => e.wk.map fun w => (w.pc, w.asleep, w.woken, needsRun e w)) = some [some (.enc, true, true, true)] := by
+  decide +kernel
 
 end XzVerif.C08
